@@ -142,6 +142,11 @@ def mech_params(m, op):
     return None
 
 
+# calls placed between the Init on a CKA_ALWAYS_AUTHENTICATE key and the call that produces output
+REAUTH_ACTIONS = ["ctx_wrong", "ctx_right", "ctx_sopin", "ctx_empty", "ctx_prefix", "logout", "logout_relogin", "user_login_again", "so_login",
+                  "query", "ctx_right_other_session", "other_session_logout_relogin"]
+
+
 class C07(Check):
     pid = "C07"
     level = "exploration"
@@ -153,9 +158,11 @@ class C07(Check):
             "negative lists} (so every mechanism is once in and once out of a positive and of a negative list), with valid "
             "mechanism parameters (valid wrapped blobs for unwrap); plus C_DigestInit / C_GenerateKey / C_GenerateKeyPair for the "
             "configuration clause and the CKA_ALWAYS_AUTHENTICATE protocol (sign/decrypt, single- and multi-part, right / "
-            "wrong / no context-specific login). IF the call succeeds THEN flag true AND class/type admissible per the "
+            "wrong / no context-specific login, and exhaustively every sequence of up to two intervening calls out of %d - wrong / right / SO / empty / "
+            "prefix PIN context logins, logout, logout+login, logins of other kinds, size queries, the same on a second session - between "
+            "the Init and the producing call, followed by a second operation that needs its own authentication). IF the call succeeds THEN flag true AND class/type admissible per the "
             "PKCS#11 reference table AND allowed list empty or containing m AND m in C_GetMechanismList. Non-trivial = a cell "
-            "in which exactly one condition is violated.") % len(TABLE)
+            "in which exactly one condition is violated.") % (len(TABLE), len(REAUTH_ACTIONS))
     assumptions = ["only pMechanism->mechanism is judged against the configuration, not hash/MGF identifiers nested in parameters",
                    "the converse (a canonical cell succeeds) is tracked as coverage, not judged"]
     essential_labels = {"nt_cells": 2000, "canonical_ok": 300}
@@ -200,6 +207,14 @@ class C07(Check):
             for how in ("sign_single", "sign_multi", "decrypt"):
                 for login in ("none", "wrong", "right"):
                     cells.append(["reauth", who, how, login])
+        # the CKA_ALWAYS_AUTHENTICATE protocol as a small-scope exhaustive enumeration: every sequence of up to two
+        # intervening calls between Init and the producing call (and, after a legitimate result, a second operation)
+        import itertools
+        for who, how in (("rsa", "sign_single"), ("rsa", "sign_multi"), ("rsa", "decrypt"), ("ec", "sign_single")):
+            for n_ in (0, 1, 2):
+                for seq in itertools.product(REAUTH_ACTIONS, repeat=n_):
+                    for again in (False, True):
+                        cells.append(["reauth2", who, how, list(seq), again])
         ctx.extra["table_cells_total"] = len(cells) if shard == 0 else 0
         first, distinct = None, {}
         for i, cell in enumerate(cells):
@@ -240,6 +255,8 @@ class C07(Check):
                 self.run_nokey(ctx, cell)
             elif cell[0] == "mechlist":
                 self.run_mechlist(ctx, cell)
+            elif cell[0] == "reauth2":
+                self.run_reauth2(ctx, cell)
             else:
                 self.run_reauth(ctx, cell)
 
@@ -462,6 +479,116 @@ class C07(Check):
             ctx.case(cell, login != "right", ["reauth"])
         finally:
             w.C_CloseSession(s=s)
+
+
+    def run_reauth2(self, ctx, cell):
+        """IF a private-key operation on an ALWAYS_AUTHENTICATE key yields output THEN a C_Login(CKU_CONTEXT_SPECIFIC) with the
+        correct PIN returned CKR_OK on this session after the operation was initialised (and the user was not logged out since)"""
+        _, who, how, seq, again = cell
+        stage = self.stage_for(ctx, "ALL")
+        w = stage.w
+        tok = ctx.shared["tpl"].tokens[0]
+        s = w.C_OpenSession(slot=tok.slot, flags=RW)["h"]
+        s2 = w.C_OpenSession(slot=tok.slot, flags=RW)["h"]
+        try:
+            if w.C_Login(s=s, user=K.CKU_USER, pin=hx(tok.user_pin))["rv"] != 0:
+                raise Violation("setup: login failed", [cell])
+            cls = "rsa_priv" if who == "rsa" else "ec_priv"
+            r = w.C_CreateObject(s=s, tpl=T(*base_template(cls, 0)) + T(("CKA_TOKEN", False), ("CKA_PRIVATE", True), ("CKA_SIGN", True), ("CKA_DECRYPT", True),
+                                                                      ("CKA_ALWAYS_AUTHENTICATE", True)))
+            if r["rv"] != 0:
+                ctx.label("reauth_key_not_creatable")
+                return
+            key = r["h"]
+            ct = None
+            if how == "decrypt":
+                pub = w.C_CreateObject(s=s, tpl=T(*base_template("rsa_pub", 0)) + T(("CKA_TOKEN", False), ("CKA_ENCRYPT", True)))["h"]
+                w.C_EncryptInit(s=s, mech={"m": K.CKM_RSA_PKCS}, key=pub)
+                ct = w.C_Encrypt(s=s, data="41" * 16, out=512)["out"]["data"]
+
+            def init():
+                if how == "decrypt":
+                    return w.C_DecryptInit(s=s, mech={"m": K.CKM_RSA_PKCS}, key=key)["rv"]
+                if who == "rsa":
+                    return w.C_SignInit(s=s, mech={"m": K.CKM_RSA_PKCS} if how == "sign_single" else {"m": K.CKM_SHA256_RSA_PKCS}, key=key)["rv"]
+                return w.C_SignInit(s=s, mech={"m": K.CKM_ECDSA}, key=key)["rv"]
+
+            def produce():
+                if how == "decrypt":
+                    r_ = w.C_Decrypt(s=s, data=ct, out=512)
+                elif how == "sign_single":
+                    r_ = w.C_Sign(s=s, data="42" * 32, out=512)
+                else:
+                    r1 = w.C_SignUpdate(s=s, data="42" * 32)
+                    r_ = w.C_SignFinal(s=s, out=512) if r1["rv"] == K.CKR_OK else {"rv": r1["rv"], "out": {}}
+                return r_, bool(r_["rv"] == K.CKR_OK or r_.get("out", {}).get("data") or r_.get("out", {}).get("tail") is False)
+
+            def act(a):
+                """-> True iff a correct context-specific login returned CKR_OK on s"""
+                if a == "ctx_wrong":
+                    return w.C_Login(s=s, user=K.CKU_CONTEXT_SPECIFIC, pin=hx(b"wrong-pin-000"))["rv"] == K.CKR_OK and None
+                if a == "ctx_right":
+                    return w.C_Login(s=s, user=K.CKU_CONTEXT_SPECIFIC, pin=hx(tok.user_pin))["rv"] == K.CKR_OK
+                if a == "ctx_sopin":
+                    w.C_Login(s=s, user=K.CKU_CONTEXT_SPECIFIC, pin=hx(tok.so_pin))
+                elif a == "ctx_empty":
+                    w.C_Login(s=s, user=K.CKU_CONTEXT_SPECIFIC, pin="")
+                elif a == "ctx_prefix":
+                    w.C_Login(s=s, user=K.CKU_CONTEXT_SPECIFIC, pin=hx(tok.user_pin[:-1]))
+                elif a == "logout":
+                    w.C_Logout(s=s)
+                    return False
+                elif a == "logout_relogin":
+                    w.C_Logout(s=s)
+                    w.C_Login(s=s, user=K.CKU_USER, pin=hx(tok.user_pin))
+                    return False
+                elif a == "other_session_logout_relogin":
+                    w.C_Logout(s=s2)
+                    w.C_Login(s=s2, user=K.CKU_USER, pin=hx(tok.user_pin))
+                    return False
+                elif a == "user_login_again":
+                    w.C_Login(s=s, user=K.CKU_USER, pin=hx(tok.user_pin))
+                elif a == "so_login":
+                    w.C_Login(s=s, user=K.CKU_SO, pin=hx(tok.so_pin))
+                elif a == "query":
+                    if how == "decrypt":
+                        w.C_Decrypt(s=s, data=ct, out=None)
+                    elif how == "sign_single":
+                        w.C_Sign(s=s, data="42" * 32, out=None)
+                    else:
+                        w.C_SignFinal(s=s, out=None)
+                elif a == "ctx_right_other_session":
+                    w.C_Login(s=s2, user=K.CKU_CONTEXT_SPECIFIC, pin=hx(tok.user_pin))
+                return False
+
+            if init() != K.CKR_OK:
+                ctx.label("reauth_init_failed")
+                return
+            authed = False
+            for a in seq:
+                if act(a) is True:
+                    authed = True           # (a later logout does not make the statement stricter: it only asks for a successful login before output)
+            r, produced = produce()
+            if produced and not authed:
+                raise self.viol("ALWAYS_AUTHENTICATE %s key: %s produced output although no correct context-specific login succeeded after the Init "
+                                "(calls in between: %s) -> %s" % (who, how, seq or "none", K.rvname(r["rv"])), [cell], fn=how, deviation="always_authenticate_bypassed")
+            if authed:
+                ctx.label("reauth2_authed_ok" if produced else "reauth2_authed_fail")
+            nt = not authed and len(seq) > 0
+            if again and produced:
+                # a second operation needs its own authentication
+                if init() == K.CKR_OK:
+                    r, produced2 = produce()
+                    if produced2:
+                        raise self.viol("ALWAYS_AUTHENTICATE %s key: a second %s operation produced output without a new context-specific login "
+                                        "(the first one was authenticated) -> %s" % (who, how, K.rvname(r["rv"])), [cell], fn=how, deviation="always_authenticate_not_rearmed")
+                    ctx.label("reauth2_second_op_refused")
+                    nt = True
+            ctx.label("nt_cells" if nt else "reauth2_other")
+            ctx.case(cell, nt, ["reauth2"])
+        finally:
+            w.C_CloseSession(s=s)
+            w.C_CloseSession(s=s2)
 
 
 if __name__ == "__main__":
